@@ -2,7 +2,7 @@
    later proof unfolds `step`.  Hypothesis of each lemma: at_instr M fn ip i (obtained from fetch_at). *)
 From Coq Require Import ZArith NArith List Bool Lia.
 From NV Require Import Base.Bytes Isa.Codec Isa.CodecProofs gen.IsaTable Lang.Ast Back.VmCompile Back.VmExec
-  Back.VmSimFetch.
+  Back.VmSimFetch Back.IntFormat.
 Import ListNotations.
 
 Ltac step_tac H :=
@@ -260,5 +260,47 @@ Proof.
   subst n. rewrite firstn_app, Nat.sub_diag, firstn_all, skipn_app, Nat.sub_diag, skipn_all. cbn [firstn skipn app].
   rewrite app_nil_r. reflexivity.
 Qed.
+
+(* ---- strings ---- *)
+Lemma step_add_str x y st :
+  at_instr M fn ip (mk OP_ADD []) ->
+  step M (mkst fn ret locs (MStr y :: MStr x :: st) cs ip g out) = MNext (mkst fn ret locs (MStr (x ++ y) :: st) cs (ip + 1) g out).
+Proof. intros H. step_tac H. reflexivity. Qed.
+
+Lemma step_str_concat x y st :
+  at_instr M fn ip (mk OP_STR_CONCAT []) ->
+  step M (mkst fn ret locs (MStr y :: MStr x :: st) cs ip g out) = MNext (mkst fn ret locs (MStr (x ++ y) :: st) cs (ip + 1) g out).
+Proof. intros H. step_tac H. reflexivity. Qed.
+
+Lemma step_str_len x st :
+  at_instr M fn ip (mk OP_STR_LEN []) ->
+  step M (mkst fn ret locs (MStr x :: st) cs ip g out) = MNext (mkst fn ret locs (MInt (Z.of_nat (length x)) :: st) cs (ip + 1) g out).
+Proof. intros H. step_tac H. reflexivity. Qed.
+
+Lemma step_str_contains x y st :
+  at_instr M fn ip (mk OP_STR_CONTAINS []) ->
+  step M (mkst fn ret locs (MStr y :: MStr x :: st) cs ip g out) = MNext (mkst fn ret locs (MBool (containsb x y) :: st) cs (ip + 1) g out).
+Proof. intros H. step_tac H. reflexivity. Qed.
+
+Lemma step_str_eq x y st :
+  at_instr M fn ip (mk OP_STR_EQ []) ->
+  step M (mkst fn ret locs (MStr y :: MStr x :: st) cs ip g out) = MNext (mkst fn ret locs (MBool (list_N_eqb x y) :: st) cs (ip + 1) g out).
+Proof. intros H. step_tac H. reflexivity. Qed.
+
+Lemma step_str_char_at x i st :
+  at_instr M fn ip (mk OP_STR_CHAR_AT []) ->
+  step M (mkst fn ret locs (MInt i :: MStr x :: st) cs ip g out) = MNext (mkst fn ret locs (MInt (vm_char_at x i) :: st) cs (ip + 1) g out).
+Proof. intros H. step_tac H. reflexivity. Qed.
+
+Lemma step_str_substr x a b st :
+  at_instr M fn ip (mk OP_STR_SUBSTR []) ->
+  step M (mkst fn ret locs (MInt b :: MInt a :: MStr x :: st) cs ip g out) =
+  MNext (mkst fn ret locs (MStr (vm_substr x a b) :: st) cs (ip + 1) g out).
+Proof. intros H. step_tac H. reflexivity. Qed.
+
+Lemma step_cast_string_int z t st :
+  at_instr M fn ip (mk OP_CAST_STRING []) -> vm_int_to_string z = Some t ->
+  step M (mkst fn ret locs (MInt z :: st) cs ip g out) = MNext (mkst fn ret locs (MStr t :: st) cs (ip + 1) g out).
+Proof. intros H Ht. step_tac H. cbn -[vm_int_to_string]. rewrite Ht. reflexivity. Qed.
 
 End Steps.
